@@ -5,11 +5,8 @@ Import ListNotations.
 Open Scope R_scope.
 
 (* ---------- LinearMatrix: 1/2 (G m - d)^T W (G m - d), W = inverse data covariance ---------- *)
-Fixpoint transpose (n : nat) (M : list (list R)) : list (list R) :=   (* n = number of columns *)
-  match n with
-  | O => []
-  | S k => transpose k M ++ [map (fun row => nth k row 0) M]
-  end.
+Definition transpose (n : nat) (M : list (list R)) : list (list R) :=   (* n = number of columns *)
+  map (fun k => map (fun row => nth k row 0) M) (seq 0 n).
 
 Definition lin_residual (G : list (list R)) (d x : list R) : list R := map2R Rminus (matvec G x) d.
 Definition lin_misfit (G : list (list R)) (d : list R) (W : list (list R)) (x : list R) : R :=
